@@ -1,7 +1,7 @@
 """C13 - a non-zero score is a promise the guesser keeps (DESIGN section 4, C13)."""
 import ast
 
-from ..core import (U, walk_local, calls_in, call_name, const, NOCONST, params, stores_in, single_def, expand,
+from ..core import (TU, U, walk_local, calls_in, call_name, const, NOCONST, params, stores_in, single_def, expand,
                     walk_stmts, arg_for, kwarg, path_conditions, enclosing_stmt_chain, dotted)
 from ..iotable import IOTable
 from . import c03, c07, c08
@@ -414,7 +414,7 @@ def r14_recasing_round_trip(ctx, rule):
                 or (isinstance(s_, ast.Return) and isinstance(s_.value, ast.Tuple) and len(s_.value.elts) == 4 and const(s_.value.elts[2]) == 0)]
         if not zero:
             continue
-        txt = U(lp)
+        txt = TU(lp)
         alpha_only = any("[0] == 'A'" in U(t) or ".startswith('A')" in U(t) for t in (x.test for x in ast.walk(lp) if isinstance(x, ast.If)))
         recase = '.lower()' in txt and '.upper()' in txt and '.isupper()' in txt and \
             any(isinstance(c, ast.Compare) and isinstance(c.ops[0], (ast.NotEq, ast.Eq)) for c in ast.walk(lp))
@@ -461,11 +461,26 @@ def _mask_per_character(ctx, rule):
     return c04.r3_mask_slices(ctx, rule, strict_char_map=True)
 
 
+def _shared_rule(mod, name, **kw):
+    def run(ctx, rule):
+        import importlib
+        return getattr(importlib.import_module('sa.props.' + mod), name)(ctx, rule, **kw)
+    return run
+
+
 def rules(tier):
     return [('C13.R1', r1_detector_order), ('C13.R2', r2_early_return), ('C13.R3', r3_factors), ('C13.R4', r4_effect_free),
             ('C13.R5', r5_loader), ('C13.R8', _splice), ('C13.R9', c03.r2_mask_producer), ('C13.R10', c03.r3_mask_insertion), ('C13.R11', r11_no_shared_class_state), ('C13.R12', _adoption), ('C13.R13', _mask_per_character), ('C13.R14', r14_recasing_round_trip), ('C13.R15', _successor), ('C13.R16', _slice_tiling), ('C13.R17', _renorm), ('C13.R6', lambda c, r: c07.r5_strip_discipline(c, r, only=('lib_guesser/grammar_io.py::_load_from_file', 'lib_scorer/grammar_io.py::_load_from_file',
                                                                         'lib_guesser/grammar_io.py::_load_base_structures'), floor=3)),
-            ('C13.R7', lambda c, r: c07.r2_encoding_agreement(c, r, file_filter=lambda fid: fid[0] not in ('Omen', 'Emails', 'Websites', 'Prince'), floor=12))]
+            ('C13.R7', lambda c, r: c07.r2_encoding_agreement(c, r, file_filter=lambda fid: fid[0] not in ('Omen', 'Emails', 'Websites', 'Prince'), floor=12)),
+            # C13-cb: the first part appended behind the parsing of the rest - three-word multiwords come back rotated
+            ('C13.R18', _shared_rule('c05', 'r4_multiword_parts')),
+            # C13-ca: load_grammar's two boolean parameters swapped in the signature, callers pass by position
+            ('C13.R19', _shared_rule('c14', 'r13_options_forwarded')),
+            # scorer options
+            ('C13.R20', _shared_rule('plumbing', 'option_round_trip')),
+            # C07-ca idea: the scorer reads the OMEN tables in the ruleset's encoding
+            ('C13.R21', _shared_rule('c07', 'r18_scorer_encoding_before_omen'))]
 
 
 META = {
